@@ -691,9 +691,33 @@ func init() {
 			n := len(r.Sections)
 			var names []string
 			var data [][]byte
-			sub := c.Free(3, "table-op")
+			sub := c.Free(4, "table-op")
 			op := ""
 			switch sub {
+			case 3:
+				// a section name listed twice with DIFFERENT lengths (a duplicate test that compares whole table
+				// entries lets these through), the second entry at any position, its content made to fit the
+				// length it claims so that every other section stays where the table says
+				d := c.Free(n, "dup")
+				at := c.Free(n+1, "position of the second entry")
+				L := len(r.SectionData[d])
+				variants := []int{0, 1, L + 1, L + 7, 2 * L}
+				if L > 1 {
+					variants = append(variants, L-1)
+				}
+				v := variants[c.Free(len(variants), "claimed length")]
+				filler := append(append([]byte{}, r.SectionData[d]...), make([]byte, v+1)...)[:v]
+				for i := 0; i <= n; i++ {
+					if i == at {
+						names = append(names, r.Sections[d].Name)
+						data = append(data, filler)
+					}
+					if i < n {
+						names = append(names, r.Sections[i].Name)
+						data = append(data, r.SectionData[i])
+					}
+				}
+				op = fmt.Sprintf("section[%d]-listed-again@%d-with-length-%d", d, at, v)
 			case 0:
 				ps := perms(n)
 				p := ps[c.Free(len(ps), "perm")]
@@ -798,7 +822,7 @@ func init() {
 	register(&mc.Property{
 		ID:          "C05",
 		Level:       "model_checking",
-		Rule:        "choice-tree enumeration of inputs to bundle.Read in watchdog-supervised workers: 7 (quick) / 9 (thorough) base bundles built by the reference encoder (b1/b2, 1-3 exchanges, primary/manifest/signatures sections, a b1 variants entry, two with the sections in an order the repository's writer never produces: manifest ahead of index in a b2 bundle, signatures/manifest ahead of index in b1; one whose responses section is a single response item at offset 0) x one structure-aware mutation: every length/offset/count head replaced by a well-delimited item of another type (null, false, negative integers, empty strings / array / map, a tag, a reserved head, a float), or re-encoded with the same value in a wider head / with the value moved into the high half of an 8-byte argument; every length/offset/count head of the reference's field map replaced by each of 9 boundary values (0, exact+-1, file size, 2^32, 2^63-1, 2^63, 2^64-1, exact+2^63; thorough: pairs of fields), truncation at every offset, every byte set to 8 values (quick: 00, ff, two bit flips, +1, '+', '-', space) / all 256 (thorough), offset/length pairs whose sum wraps around 2^64, an unknown section inserted consistently at every position (must be stepped over), the section table permuted / an entry duplicated / dropped, an unknown section listed without content, the ':status' value of a response replaced by 19 other strings ('200 ', '2000', '+20', the empty string, non-ASCII digits ...) with the bundle re-encoded consistently, and a b1 index entry whose variants-value announces 2^31 .. 2^65 possible keys (31..65 axes, or 32 four-valued / 16 sixteen-valued axes) with the value-array count a product wrapped to 32 or 64 bits would predict., and small bundles that carry an 8000-byte manifest / unknown / critical / primary section ahead of 'responses' while the section table and the index entry overstate the responses section by 1, 9, 600, 4096 or 8000 bytes. Oracle: refbx.Extract (location-strict, encoding-lenient). Non-trivial = the reference produced a verdict the reader had to match (content equality, must-refuse location, must-accept unknown section); distinct by input hash.",
+		Rule:        "choice-tree enumeration of inputs to bundle.Read in watchdog-supervised workers: 7 (quick) / 9 (thorough) base bundles built by the reference encoder (b1/b2, 1-3 exchanges, primary/manifest/signatures sections, a b1 variants entry, two with the sections in an order the repository's writer never produces: manifest ahead of index in a b2 bundle, signatures/manifest ahead of index in b1; one whose responses section is a single response item at offset 0) x one structure-aware mutation: every length/offset/count head replaced by a well-delimited item of another type (null, false, negative integers, empty strings / array / map, a tag, a reserved head, a float), or re-encoded with the same value in a wider head / with the value moved into the high half of an 8-byte argument; every length/offset/count head of the reference's field map replaced by each of 9 boundary values (0, exact+-1, file size, 2^32, 2^63-1, 2^63, 2^64-1, exact+2^63; thorough: pairs of fields), truncation at every offset, every byte set to 8 values (quick: 00, ff, two bit flips, +1, '+', '-', space) / all 256 (thorough), offset/length pairs whose sum wraps around 2^64, an unknown section inserted consistently at every position (must be stepped over), the section table permuted / an entry duplicated (verbatim, or at any position with another length and content that fits it) / dropped, an unknown section listed without content, the ':status' value of a response replaced by 19 other strings ('200 ', '2000', '+20', the empty string, non-ASCII digits ...) with the bundle re-encoded consistently, and a b1 index entry whose variants-value announces 2^31 .. 2^65 possible keys (31..65 axes, or 32 four-valued / 16 sixteen-valued axes) with the value-array count a product wrapped to 32 or 64 bits would predict., and small bundles that carry an 8000-byte manifest / unknown / critical / primary section ahead of 'responses' while the section table and the index entry overstate the responses section by 1, 9, 600, 4096 or 8000 bytes. Oracle: refbx.Extract (location-strict, encoding-lenient). Non-trivial = the reference produced a verdict the reader had to match (content equality, must-refuse location, must-accept unknown section); distinct by input hash.",
 		Assumptions: []string{"refbx extracts at least what bundle.Read accepts (any well-formed CBOR head, any key order) and is exact about locations", "inputs the reference can extract but the reader refuses for its own stricter rules (URL syntax, header-name case, ASCII) are not judged", "header maps with duplicate names are not judged (the property does not say which value a reader returns)"},
 		Harnesses:   []*mc.Harness{h},
 		Guard: func(s map[string]*mc.Stats) error {
